@@ -503,6 +503,9 @@ static void gen(int qi) {
             memset(&s, 0, sizeof s); s.dl = dl; s.sl = sl; str_from(s.d, dl, dc, 6, NAT); str_from(s.s, sl, sc, 6, NAT);
             s.dterm = 1; s.sterm = 1; s.dmax = dl + 1 + (idx % 3); s.slen = (q->fl & QF_SLEN) ? sl + 1 + (idx % 2) : 0; s.fold = fold; s.bos = (int)((idx / 2) & 1);
             g_shm->cur = idx; run_case(q, &s, idx);
+            /* the same operands as arrays that exactly fill dmax / slen without a terminator (digit runs end at the fence) */
+            if (dl && (idx / 2) % 2 == 0) { qscn u = s; u.dterm = 0; u.dmax = dl; run_case(q, &u, idx); }
+            if (sl && (q->fl & QF_SLEN) && (idx / 2) % 2 == 1) { qscn u = s; u.sterm = 0; u.slen = sl; run_case(q, &u, idx); }
         }
     }
     /* pass D: longer haystacks with repeated partial matches for the two-operand searches */
